@@ -192,3 +192,29 @@ R.spec(SY, "Study.best_trial", props=["C12", "C20"],
                   # C12
                   "copy_of_best(self, result)"])],
        modifies=["L:*", "D:*", "F:FrozenTrial.*", "G:is_tuple"])
+
+
+# --- C20: attribute dictionaries handed out by the Study API are private copies -------------------------------------------------
+R.spec(B, "BaseStorage.get_study_user_attrs", trusted=True, returns_kind="dict[str, Any]",
+       cases=[case("missing", when="nondet()", raises="KeyError"), case("ok", ensures=["result is not None"])],
+       note="assumed: returns the study's attribute dict (possibly the storage's own object)")
+R.spec(B, "BaseStorage.get_study_system_attrs", trusted=True, returns_kind="dict[str, Any]",
+       cases=[case("missing", when="nondet()", raises="KeyError"), case("ok", ensures=["result is not None"])],
+       note="assumed: returns the study's attribute dict (possibly the storage's own object)")
+
+
+@R.specfunc()
+def same_entries(eng, st, a, b):
+    k = z3.String("se_k")
+    key = SV(KStr, k)
+    ha, hb = eng.dict_has(st, a, key), eng.dict_has(st, b, key)
+    return SV(KBool, qforall([k], z3.And(ha == hb, z3.Implies(ha, eng.dict_get(st, a, key).term == eng.dict_get(st, b, key).term)), patterns=[ha, hb]))
+
+
+for _nm in ("user_attrs", "system_attrs"):
+    R.spec(SY, "Study." + _nm, props=["C20"], returns_kind="dict[str, Any]",
+           cases=[case("any", any_outcome=True, ensures_return=[
+               # a later write to the study's attributes (a new dict or an in-place update of the storage's own) cannot show
+               # through: the caller holds a fresh dict object
+               "fresh(result)"])],
+           modifies=["D:*:dict<str,val>", "L:*:list<val>", "G:is_tuple"])
